@@ -1,7 +1,7 @@
 (* AtYmd.v — get_jdn, at_ordinal_date and at_ymd of every calendar a user can hold, classified
    completely: which requests succeed, with which date, and which error each refused request gets. *)
 From JV Require Import Sem Gen Spec SpecX.
-From JV.Proofs Require Import SpecFacts GapFacts Cal Cmp Inner Year MonthGeom Shape Month MonthSpec SpecSums Walk SpecOrd SpecInv AtJdn.
+From JV.Proofs Require Import SpecFacts GapFacts Cal Cmp Inner Year MonthGeom Shape Month MonthSpec SpecSums Walk SpecOrd SpecInv AtJdn Meq.
 Open Scope Z_scope.
 Ltac Zify.zify_post_hook ::= Z.to_euclidean_division_equations.
 
@@ -11,24 +11,35 @@ Proof.
   destruct c; cbn [old_days new_days]; lia.
 Qed.
 
+(* get_jdn: the proofs establish the arithmetic facts of each case and then let [gj_norm] evaluate the generated
+   function, whatever the order and nesting of its tests: every comparison the facts decide is replaced by its value,
+   every call is rewritten by its characterisation. *)
+Ltac gj_norm :=
+  repeat first
+  [ progress cbn [bind andb orb negb Calendar_f_0 inner_ReformGap_f_post_reform inner_ReformGap_f_pre_reform inner_ReformGap_f_ordinal_gap
+                  inner_Date_f_year inner_Date_f_ordinal]
+  | progress cbv zeta
+  | rewrite Year.gap_ok
+  | progress cmp_simpl
+  | rewrite u32_add_ok by range
+  | rewrite julian2jdn_ok by (try assumption; lia)
+  | rewrite gregorian2jdn_ok by (try assumption; lia) ].
+Ltac gj_leaf :=
+  unfold jdn_result;
+  first [ reflexivity
+        | match goal with |- Ret (match chk_jdn ?a with _ => _ end) = Ret (match chk_jdn ?b with _ => _ end) => replace a with b by lia; reflexivity end ].
+
 Lemma get_jdn_julian y o : in_i32 y -> 1 <= o <= year_count CJ y ->
   Calendar_get_jdn (cal_of CJ) y o = Ret (jdn_result (jdn_of_ordinal CJ y o)).
 Proof.
-  intros Hy Ho. unfold Calendar_get_jdn. cbv zeta. rewrite Year.gap_ok. cbn [bind].
-  change (Calendar_f_0 (cal_of CJ)) with inner_Calendar_Julian. cbn [orb].
-  unfold year_count in Ho. cbn [old_days new_days] in Ho. pose proof (ylen_bounds (jleap y)).
-  rewrite julian2jdn_ok by (try assumption; lia). cbn [bind].
-  unfold jdn_result, jdn_of_ordinal. cbn [old_days]. replace (o <=? ylen (jleap y)) with true by lia. reflexivity.
+  intros Hy Ho. unfold Calendar_get_jdn, jdn_of_ordinal. unfold year_count in Ho. cbn [old_days new_days] in *.
+  pose proof (ylen_bounds (jleap y)). change (Calendar_f_0 (cal_of CJ)) with inner_Calendar_Julian. gj_norm. gj_leaf.
 Qed.
 Lemma get_jdn_gregorian y o : in_i32 y -> 1 <= o <= year_count CG y ->
   Calendar_get_jdn (cal_of CG) y o = Ret (jdn_result (jdn_of_ordinal CG y o)).
 Proof.
-  intros Hy Ho. unfold Calendar_get_jdn. cbv zeta. rewrite Year.gap_ok. cbn [bind].
-  change (Calendar_f_0 (cal_of CG)) with inner_Calendar_Gregorian. cbn [orb].
-  unfold year_count in Ho. cbn [old_days new_days] in Ho. pose proof (ylen_bounds (gleap y)).
-  rewrite gregorian2jdn_ok by (try assumption; lia). cbn [bind].
-  unfold jdn_result, jdn_of_ordinal. cbn [old_days new_start]. replace (o <=? 0) with false by lia.
-  replace (G0 y + (o - 0) - 1) with (G0 y + o - 1) by lia. reflexivity.
+  intros Hy Ho. unfold Calendar_get_jdn, jdn_of_ordinal. unfold year_count in Ho. cbn [old_days new_days new_start] in *.
+  pose proof (ylen_bounds (gleap y)). change (Calendar_f_0 (cal_of CG)) with inner_Calendar_Gregorian. gj_norm. gj_leaf.
 Qed.
 
 Section Reforming.
@@ -40,49 +51,32 @@ Section Reforming.
   Lemma get_jdn_reforming y o : in_i32 y -> 1 <= o <= year_count (CR r) y ->
     Calendar_get_jdn K y o = Ret (jdn_result (jdn_of_ordinal (CR r) y o)).
   Proof.
-    intros Hy Ho. unfold Calendar_get_jdn. cbv zeta.
-    change (Calendar_gap K) with (@Ret (option inner_ReformGap) (Some (the_gap r py pm pd qy qm qd))). cbn [bind].
-    unfold K. cbn [rcal Calendar_f_0 orb]. unfold the_gap.
-    cbn [inner_ReformGap_f_post_reform inner_ReformGap_f_ordinal_gap inner_Date_f_year inner_Date_f_ordinal].
+    intros Hy Ho. unfold Calendar_get_jdn.
+    change (Calendar_gap K) with (@Ret (option inner_ReformGap) (Some (the_gap r py pm pd qy qm qd))).
+    unfold K. cbn [rcal Calendar_f_0]. unfold the_gap.
     pose proof (r_year_bounds _ _ _ _ _ _ _ GI) as [[A B] [C D]]. pose proof (py_le_qy _ _ _ _ _ _ _ GI) as PQ.
     pose proof (old_days_eq _ _ _ _ _ _ _ GI y) as OD. pose proof (new_days_eq _ _ _ _ _ _ _ GI y) as ND.
     pose proof (J0_step py) as JP. pose proof (G0_step qy) as GQ. pose proof (J0_step y) as JS. pose proof (G0_step y) as GS.
     pose proof (ylen_bounds (jleap y)). pose proof (ylen_bounds (gleap y)). pose proof (ylen_bounds (jleap py)). pose proof (ylen_bounds (gleap qy)).
-    unfold year_count in Ho. unfold jdn_result, jdn_of_ordinal. cbn [new_start].
+    unfold year_count in Ho. unfold jdn_of_ordinal. cbn [new_start]. rewrite OD. rewrite OD, ND in Ho.
     destruct (Z.lt_trichotomy y qy) as [L|[E|G]].
     - (* before the year of the first Gregorian date: Julian reckoning *)
-      replace (y =? qy) with false by lia. cbn [andb]. replace (y <? qy) with true by lia. cbn [orb].
       assert (YP : y <= py).
-      { destruct (Z.le_gt_cases y py); [assumption|exfalso]. rewrite OD, ND in Ho.
+      { destruct (Z.le_gt_cases y py); [assumption|exfalso].
         replace (y <? py) with false in Ho by lia. replace (y =? py) with false in Ho by lia. replace (y <? qy) with true in Ho by lia. lia. }
-      rewrite OD, ND in Ho. replace (y <? qy) with true in Ho by lia.
-      rewrite julian2jdn_ok by (try assumption; destruct (y <? py), (y =? py); lia). cbn [bind].
-      rewrite OD. replace (o <=? (if y <? py then ylen (jleap y) else if y =? py then r - J0 py else 0)) with true by (destruct (y <? py), (y =? py); lia).
-      reflexivity.
-    - subst y. replace (qy =? qy) with true by lia. cbn [andb]. replace (qy <? qy) with false by lia. cbn [orb].
-      rewrite OD, ND in Ho. replace (qy <? qy) with false in Ho by lia. replace (qy =? qy) with true in Ho by lia.
+      replace (y <? qy) with true in Ho by lia.
+      destruct (Z.ltb_spec y py), (Z.eqb_spec y py); try lia; gj_norm; gj_leaf.
+    - subst y. replace (qy <? qy) with false in Ho by lia. replace (qy =? qy) with true in Ho by lia.
       destruct (Z.eqb_spec py qy) as [E2|N2].
       + subst py. replace (qy <? qy) with false in * by lia. replace (qy =? qy) with true in * by lia.
         pose proof (same_year_gap _ _ _ _ _ _ _ GI eq_refl) as SG.
-        destruct (Z.leb_spec (r - J0 qy + 1) o) as [New|Old].
-        * rewrite u32_add_ok by range. cbn [bind]. replace (o + (J0 qy - G0 qy) <? r - J0 qy + 1) with false by lia.
-          rewrite gregorian2jdn_ok by (try assumption; lia). cbn [bind]. rewrite OD.
-          replace (o <=? r - J0 qy) with false by lia. replace (Z.max r (G0 qy)) with r by lia.
-          match goal with |- Ret (match chk_jdn ?a with _ => _ end) = Ret (match chk_jdn ?b with _ => _ end) => replace a with b by lia end. reflexivity.
-        * replace (o <? r - J0 qy + 1) with true by lia.
-          rewrite julian2jdn_ok by (try assumption; lia). cbn [bind]. rewrite OD. replace (o <=? r - J0 qy) with true by lia. reflexivity.
+        destruct (Z.leb_spec (r - J0 qy + 1) o) as [New|Old]; gj_norm; gj_leaf.
       + replace (qy <? py) with false in * by lia. replace (qy =? py) with false in * by lia.
-        replace (1 <=? o) with true by lia. rewrite u32_add_ok by range. cbn [bind]. replace (o + (r - G0 qy) <? 1) with false by lia.
-        rewrite gregorian2jdn_ok by (try assumption; lia). cbn [bind]. rewrite OD.
-        replace (o <=? 0) with false by lia. replace (Z.max r (G0 qy)) with r by lia.
-          match goal with |- Ret (match chk_jdn ?a with _ => _ end) = Ret (match chk_jdn ?b with _ => _ end) => replace a with b by lia end. reflexivity.
-    - replace (y =? qy) with false by lia. cbn [andb]. replace (y <? qy) with false by lia. cbn [orb].
-      rewrite OD, ND in Ho. replace (y <? py) with false in * by lia. replace (y =? py) with false in * by lia.
+        gj_norm; gj_leaf.
+    - replace (y <? py) with false in * by lia. replace (y =? py) with false in * by lia.
       replace (y <? qy) with false in Ho by lia. replace (y =? qy) with false in Ho by lia.
       assert (G0 (qy + 1) <= G0 y). { destruct (Z.eq_dec (qy + 1) y) as [<-|]; [lia|]. pose proof (G0_mono (qy + 1) y ltac:(lia)). lia. }
-      rewrite gregorian2jdn_ok by (try assumption; lia). cbn [bind]. rewrite OD.
-      replace (o <=? 0) with false by lia. replace (Z.max r (G0 y)) with (G0 y) by lia.
-      match goal with |- Ret (match chk_jdn ?a with _ => _ end) = Ret (match chk_jdn ?b with _ => _ end) => replace a with b by lia end. reflexivity.
+      gj_norm; gj_leaf.
   Qed.
 End Reforming.
 
